@@ -262,3 +262,34 @@ func init() {
 	vrt.Register(&vrt.Scenario{Name: "H-poll-closedsrc", Props: []string{"C13", "C11:race", "C12:goroutine-leak,close-"}, Quick: 2, Thorough: 3,
 		Desc: "same, the source channel is closed after one value: Get must never produce a zero value", Opts: vrt.Options{Delay: true, MaxTimerFires: 12}, Run: chPoll(true), Check: channelCheck})
 }
+
+// H-done: once Done is closed nothing more is taken from the source. T1: two Gets; T2: Close;
+// T3 waits for Done and then looks at the source; at the end the source must still hold as much.
+func chDone() {
+	h := newChH(nil, 0, 1, 2, 3)
+	var wg sync.WaitGroup
+	wg.Add(3)
+	go func() {
+		defer wg.Done()
+		h.get(0, nil)
+		h.get(0, nil)
+	}()
+	go func() {
+		defer wg.Done()
+		h.close()
+	}()
+	go func() {
+		defer wg.Done()
+		<-h.c.Done()
+		vrt.Log("left-at-done", len(h.src))
+	}()
+	wg.Wait()
+	vrt.Log("left-at-end", len(h.src))
+	h.finish()
+}
+
+func init() {
+	vrt.Register(&vrt.Scenario{Name: "H-done", Props: []string{"C13", "C11:race", "C12:goroutine-leak,close-"}, Quick: 3, Thorough: 5,
+		Desc: "two Gets racing Close while a third thread waits for Done and then inspects the source: nothing may be taken once Done is closed",
+		Opts: vrt.Options{Delay: true}, Run: chDone, Check: channelCheck})
+}
